@@ -83,7 +83,11 @@ class C10(DocProp):
                     hs.append(txt + "\n" + r.choice(["===", "---"]))
                 else:
                     hs.append("#" * r.randint(1, 4) + " " + txt)
-            text = "\n\n".join(h + "\n\nBody **bold** text." for h in hs) + "\n"
+            body = r.choice(["Body **bold** text.", "Body text.", "Body *em* and `**` code."])
+            text = "\n\n".join(h + "\n\n" + body for h in hs) + "\n"
+            if r.random() < 0.3:
+                # the underscore spelling of the same emphasis, and no asterisk anywhere in the document
+                text = text.replace("`**`", "`x`").replace("*", "_")
             yield {"kind": "text", "text": text, "feats": ["heading-zoo"], "profile": "heading-zoo", "opts": [rand_opts(r)]}
 
     def check(self, case, col: Collector):
@@ -168,6 +172,8 @@ class C10(DocProp):
             for L in lists_of(to):
                 items = L[4]
                 single = all(len(it[1]) == 1 for it in items)
+                # an item with no content holds no block: the statement decides neither way for lists that have one
+                multi = any(len(it[1]) > 1 for it in items)
                 col.hist("list_shapes", f"{mode}:items={min(len(items), 4)},single_block={single}")
                 if mode == "loose" and len(items) > 1 and L[3]:
                     col.violation("spacing", "C10/spacing/loose/list-still-tight", sub, {"list": repr(L)[:300]})
@@ -175,7 +181,7 @@ class C10(DocProp):
                 if mode == "tight" and single and not L[3]:
                     col.violation("spacing", "C10/spacing/tight/single-block-list-still-loose", sub, {"list": repr(L)[:300]})
                     break
-                if mode == "tight" and not single and L[3] and len(items) > 1:
+                if mode == "tight" and multi and L[3] and len(items) > 1:
                     col.violation("spacing", "C10/spacing/tight/multi-block-list-made-tight", sub, {"list": repr(L)[:300]})
                     break
         # preserve keeps every list as authored
